@@ -33,7 +33,15 @@ def check(ctx):
         'parameters.  R3: the declared grad_lipschitz must dominate the '
         'Lipschitz constant of that gradient; an under-estimate is refuted '
         'by an explicit rational witness.  R5: NumericalGradient divides '
-        'its difference quotients by the space weighting.',
+        'its difference quotients by the space weighting.  R6 (evaluated '
+        'tier): concrete functional classes (norms, Kullback-Leibler '
+        'family, quadratic forms, group norms, separable sums, field '
+        'functionals) and derived functionals built with the dunders on '
+        'non-quadratic leaves are instantiated on model spaces with '
+        'symbolic entries and constant / per-entry / per-component weights; '
+        'gradient(x)[j] == (d f(x)/d x_j)/w_j and derivative(x)(d) == sum_j '
+        'd f/d x_j d_j are decided as identities, the partials being '
+        'computed symbolically from the value f(x) at a generic point.',
         ['CPython ast', 'calculus of polynomials', 'operator/functional '
          'arithmetic means what the table says (C04)'],
         ['non-smooth points', 'numerical directional derivatives',
@@ -74,6 +82,8 @@ def check(ctx):
                               '%s: raises %s' % (tag, e.name), rel, line)
     rep.floor('R1', 'gradient instances', n, 18)
     _numerical_gradient(ctx, rep)
+    from . import c09b
+    c09b.run(rep, model)
     return rep
 
 
